@@ -312,6 +312,7 @@ fn small_geometry() -> bool {
 
 pub fn run(prop: &str, tier: &str, out: Option<&Path>) -> i32 {
     let thorough = tier == "thorough";
+    crate::oracle::set_host_prop(prop);
     let seq_assume = vec![
         "bounded: histories up to the stated depth over the stated alphabet from the stated initial states".to_string(),
         "reference model: /verif/harness/src/model.rs (frame-ownership model)".to_string(),
